@@ -7,9 +7,12 @@ Orders == {"client_first", "upstream_first", "simultaneous", "client_rst", "upst
 \* via "route": behind a real route whose matcher needs two matching rounds (the client's first segment is short);
 \* failpeer: a dial attempt to a multi-peer upstream is given up half-way, a second upstream serves
 Grid == { g \in [order : Orders, csize : {0, 1, 3000, 70000, 1048576}, usize : {0, 1, 5000, 200000}, peers : {1, 2},
-                  chunk : {1, 1000, 65536}, prefetch : {0, 5, 2048}, via : {"direct", "route", "route2", "throttle", "pp"}, failpeer : BOOLEAN,
+                  chunk : {1, 1000, 65536}, prefetch : {0, 5, 2048}, via : {"direct", "route", "route2", "bigroute", "throttle", "pp"}, failpeer : BOOLEAN,
                   transport : {"tcp", "unix", "tls"}] :
             /\ (g.via \in {"route", "route2"} => (g.prefetch = 0 /\ g.csize >= 3000))
+            \* bigroute: the route's matcher needs 8000 bytes, delivered in segments that take the matching buffer beyond 8192
+            /\ (g.via = "bigroute" => (g.prefetch = 0 /\ g.csize >= 70000 /\ g.chunk = 65536 /\ ~g.failpeer /\ g.usize \in {0, 5000}
+                                       /\ g.order \in {"client_first", "upstream_first", "simultaneous"}))
             \* route2: a matched non-terminal route, then the proxy's route; the client goes on sending after the matching timeout
             /\ (g.via = "route2" => (g.order \in {"client_first", "simultaneous"} /\ g.chunk = 65536 /\ ~g.failpeer))
             \* throttle: the shipped throttle handler (no limits) wraps the connection before the proxy handler gets it -
